@@ -36,7 +36,7 @@ def run(ctx):
                            ("multislater", 4, (2, 1)), ("UCISD", 3, (2, 1)), ("cisd", 4, (2, 2))]:
         if not trials.supported(kind, norb, ne):
             continue
-        trial, wd, desc = trials.make(kind, rng, norb, ne, **wf.make_opts(kind))
+        trial, wd, desc = trials.make(kind, rng, norb, ne, **wf.make_opts(kind, rng))
         ham, plain = trials.make_ham(rng, norb, nchol=2)
         ham = trial._build_measurement_intermediates(dict(ham), wd)
         ronly = kind in trials.RESTRICTED_ONLY
@@ -122,7 +122,7 @@ def run(ctx):
             if ne[1] == 0 and restricted:
                 continue
             try:
-                trial, wd, desc = trials.make(kind, rng, norb, ne, **wf.make_opts(kind))
+                trial, wd, desc = trials.make(kind, rng, norb, ne, **wf.make_opts(kind, rng))
                 if kind in ("rhf", "uhf", "ghf"):
                     # orthonormal trial orbitals, so that the trial has a well-defined variational energy
                     import props.c01 as c01
